@@ -721,6 +721,17 @@ impl<'a> Gen<'a> {
         if (q.limit.is_some() || q.offset.is_some()) && self.rng.chance(1, 3) {
             q.order.clear();
         }
+        // sometimes over an aggregation grouped by the (first) sort key: group keys are unique,
+        // so ORDER BY g LIMIT n is fully determined; on a primary key the on-disk plan is a sort
+        // aggregation and the sort is dropped
+        if self.rng.chance(1, 6) {
+            let g = match q.order.first() {
+                Some(k) => k.col.clone(),
+                None => def.cols[self.rng.usize(def.cols.len())].name.clone(),
+            };
+            q.order.truncate(1);
+            q.group_by = Some(g);
+        }
         q
     }
 
